@@ -267,6 +267,17 @@ pub async fn fake_epmd(dist_port: u16) -> (u16, tokio::task::JoinHandle<()>) {
     (port, h)
 }
 
+/// frames of length zero, three per timeout period, for as long as the peer would otherwise stay silent
+async fn empty_stream(s: &mut tokio::net::TcpStream, total: Duration, timeout: Duration) {
+    let t0 = Instant::now();
+    while t0.elapsed() < total {
+        if s.write_all(&[0, 0]).await.is_err() || s.flush().await.is_err() {
+            return;
+        }
+        tokio::time::sleep(timeout / 3).await;
+    }
+}
+
 async fn one_script(script: &[String], p: &Params, timeout: Duration) -> Value {
     let l = TcpListener::bind("127.0.0.1:0").await.expect("bind peer");
     let dist_port = l.local_addr().unwrap().port();
@@ -304,6 +315,12 @@ async fn one_script(script: &[String], p: &Params, timeout: Duration) -> Value {
                 proceed = status == "ok" || status == "ok_simultaneous";
             }
             "empty_frame" => write_frame(&mut s, &[]).await,
+            "empty_then_ok" => {
+                write_frame(&mut s, &[]).await;
+                write_frame(&mut s, &status_bytes("ok")).await;
+                proceed = true;
+            }
+            "empty_stream" => empty_stream(&mut s, wait, timeout).await,
             "oversized_length" => {
                 let _ = s.write_all(&[0xff, 0xff, b's', b'o', b'k']).await;
                 let _ = s.flush().await;
@@ -323,6 +340,13 @@ async fn one_script(script: &[String], p: &Params, timeout: Duration) -> Value {
                     write_frame(&mut s, &challenge_bytes(&pp, ch)).await;
                     proceed2 = ch == "good" || ch == "good_extra_bytes";
                 }
+                "empty_frame" => write_frame(&mut s, &[]).await,
+                "empty_then_good" => {
+                    write_frame(&mut s, &[]).await;
+                    write_frame(&mut s, &challenge_bytes(&pp, "good")).await;
+                    proceed2 = true;
+                }
+                "empty_stream" => empty_stream(&mut s, wait, timeout).await,
                 "oversized_length" => {
                     let _ = s.write_all(&[0xff, 0xff, b'N', 0, 0]).await;
                     let _ = s.flush().await;
@@ -350,6 +374,12 @@ async fn one_script(script: &[String], p: &Params, timeout: Duration) -> Value {
                     "wrong_digest" => write_frame(&mut s, &ack_bytes(handshake_digest(b"not the cookie", tc), "right")).await,
                     "digest_of_own_challenge" => write_frame(&mut s, &ack_bytes(handshake_digest(cookie.as_bytes(), pp.peer_challenge), "right")).await,
                     "challenge_again" => write_frame(&mut s, &challenge_bytes(&pp, "good")).await,
+                    "empty_frame" => write_frame(&mut s, &[]).await,
+                    "empty_then_right" => {
+                        write_frame(&mut s, &[]).await;
+                        write_frame(&mut s, &ack_bytes(handshake_digest(cookie.as_bytes(), tc), "right")).await;
+                    }
+                    "empty_stream" => empty_stream(&mut s, wait, timeout).await,
                     "close" => return json!({"accepted": true, "seen": seen.iter().map(|b| bytes_json(&b)).collect::<Vec<_>>(), "their_challenge": their_chal}),
                     _ => {}
                 }
